@@ -21,7 +21,7 @@ from typing import Any, Self, TYPE_CHECKING
 
 import numpy as np
 
-from cirq import protocols, qis, sim
+from cirq import protocols, qis, sim, value
 from cirq._compat import proper_repr
 from cirq.linalg import transformations
 from cirq.sim.simulation_state import SimulationState, strat_act_on_from_apply_decompose
@@ -277,6 +277,10 @@ class DensityMatrixSimulationState(SimulationState[_BufferedDensityMatrix]):
             ValueError: If `initial_state` is provided as integer, but `qubits`
                 is not provided.
         """
+        if isinstance(initial_state, value.ProductState) and qubits is not None:
+            if set(initial_state.qubits) == set(qubits):
+                # Express the product state in this simulation's qubit order.
+                initial_state = initial_state.state_vector(qubit_order=qubits)
         state = _BufferedDensityMatrix.create(
             initial_state=initial_state,
             qid_shape=tuple(q.dimension for q in qubits) if qubits is not None else None,
